@@ -36,6 +36,7 @@ are the former counter-examples; they are now examples of the theorems and corpu
 harness.
 -/
 import GrcovModel.Lemmas.FileFilter
+import GrcovModel.Props.C16Run
 namespace Grcov.Props.C16
 open Grcov AList Grcov.FileFilter
 
